@@ -184,6 +184,27 @@ fn sc_realts(prop: &str) -> LevelCfg {
     c
 }
 
+/// SC-churn: macro letters that leave more than 1024 / 4096 stale tickets behind (1100 / 4200 same-price amendments of
+/// one order, 1019 / 4200 add-and-cancel quotes) next to three ordinary orders
+fn sc_churn(prop: &str) -> LevelCfg {
+    let ts = [Tmpl::S5, Tmpl::IC23];
+    let mut c = base_cfg(prop, "SC-churn", LEVEL_PRICE, tmpl_named(&ts, LEVEL_PRICE));
+    c.ops = vec![
+        Op::Churn(1, 1100),
+        Op::Churn(2, 4200),
+        Op::Quotes(1019),
+        Op::Quotes(4200),
+        Op::Add(1, 0),
+        Op::Add(2, 1),
+        Op::Add(3, 0),
+        Op::Upd(UpdKind::Amend(6), 1),
+        Op::Upd(UpdKind::Cancel, 3),
+        Op::Match(1),
+        Op::Match(1000),
+    ];
+    c
+}
+
 /// SC-edge: quantities at the 64-bit limits on a level of price 1
 fn sc_edge(prop: &str) -> LevelCfg {
     let m = u64::MAX;
@@ -274,6 +295,7 @@ pub fn plans(prop: &str, tier: &str) -> Vec<Plan> {
                 Plan { cfg: e, depth: d(5, 10) },
                 Plan { cfg: w, depth: d(4, 8) },
                 Plan { cfg: { let mut x = sc_wide(prop); x.check.c01 = true; x }, depth: d(6, 8) },
+                Plan { cfg: { let mut x = sc_churn(prop); x.check.c01 = true; x }, depth: d(4, 5) },
                 Plan {
                     cfg: {
                         let mut x = sc_bulk(prop);
@@ -362,7 +384,12 @@ pub fn plans(prop: &str, tier: &str) -> Vec<Plan> {
             bk.check.drain = true;
             bk.variants = vec![(false, false), (true, false), (false, true), (true, true)];
             let plan_bk = Plan { cfg: bk, depth: d(5, 7) };
+            let mut ch = sc_churn(prop);
+            ch.check.c04 = true;
+            ch.check.drain = true;
+            ch.variants = vec![(false, false), (true, false), (false, true), (true, true)];
             vec![
+                Plan { cfg: ch, depth: d(4, 5) },
                 plan_bk,
                 plan_zz,
                 Plan { cfg: o, depth: d(6, 8) },
@@ -384,7 +411,11 @@ pub fn plans(prop: &str, tier: &str) -> Vec<Plan> {
             let mut bk = sc_bulk(prop);
             bk.check.c06 = true;
             bk.check.drain = true;
+            let mut ch = sc_churn(prop);
+            ch.check.c06 = true;
+            ch.check.drain = true;
             vec![
+                Plan { cfg: ch, depth: d(4, 5) },
                 Plan { cfg: bk, depth: d(5, 7) },
                 Plan { cfg: z, depth: d(7, 13) },
                 Plan { cfg: a, depth: d(4, 7) },
@@ -423,6 +454,17 @@ pub fn plans(prop: &str, tier: &str) -> Vec<Plan> {
                 Plan { cfg: o, depth: d(5, 7) },
                 Plan { cfg: w, depth: d(4, 7) },
                 Plan { cfg: bk, depth: d(4, 6) },
+                Plan {
+                    cfg: {
+                        let mut ch = sc_churn(prop);
+                        ch.check.c07 = true;
+                        ch.check.twin = true;
+                        ch.check.drain = true;
+                        ch.variants = vec![(false, false), (true, false), (false, true), (true, true)];
+                        ch
+                    },
+                    depth: d(4, 5),
+                },
             ]
         }
         "C10" => {
@@ -551,6 +593,9 @@ pub fn emit_unit_test(cfg: &LevelCfg, hist: &[u16], message: &str) -> String {
             }
             Op::BulkCancel(n) => {
                 t.push_str(&format!("    for i in 0..{n}u64 {{ let _ = {level_var}.update_order(OrderUpdate::Cancel {{ order_id: OrderId::from_u64(100 + i) }}); }}\n"));
+            }
+            Op::Quotes(n) => {
+                t.push_str(&format!("    for _ in 0..{n} {{ {level_var}.add_order(OrderType::Standard {{ id: OrderId::from_u64(500), price: {}, quantity: 2, side: pricelevel::Side::Buy, timestamp: 5000, time_in_force: pricelevel::TimeInForce::Gtc, extra_fields: () }}); let _ = {level_var}.update_order(OrderUpdate::Cancel {{ order_id: OrderId::from_u64(500) }}); }}\n", cfg.price));
             }
             Op::Churn(id, n) => {
                 t.push_str(&format!("    for _ in 0..{n} {{ let _ = {level_var}.update_order(OrderUpdate::UpdateQuantity {{ order_id: OrderId::from_u64({id}), new_quantity: 1 }}); }}\n"));
